@@ -41,13 +41,9 @@ type verifC03Index struct {
 
 var verifC03Indexes = map[string]*verifC03Index{} // by index kind
 
-// model of (*compactindexsized.DB).Lookup, installed through the VerifLookup hook.
-func verifC03Lookup(db *compactindexsized.DB, key []byte) ([]byte, error) {
-	kind, _ := db.GetKind()
-	ix := verifC03Indexes[string(kind)]
-	if ix == nil {
-		return nil, errors.New("verif model: unknown index kind")
-	}
+// find: index of the entry that answers key (functional per key), -1 = not found. An inserted key is
+// answered with its own entry; any other key with not-found or with ANY stored entry (24-bit hash).
+func (ix *verifC03Index) find(name string, key []byte, s1 bool) int {
 	hit, seen := ix.memo[string(key)]
 	if !seen {
 		hit = -2
@@ -57,17 +53,30 @@ func verifC03Lookup(db *compactindexsized.DB, key []byte) ([]byte, error) {
 			}
 		}
 		if hit == -2 {
-			// absent key: ErrNotFound, or the entry of any stored key (equal 24-bit hash)
-			k := verifChoice("lookup:"+string(kind), len(ix.entries)+1)
+			k := verifChoice("lookup:"+name, len(ix.entries)+1)
 			hit = k
 			if k == len(ix.entries) {
 				hit = -1
 			} else {
-				verifKnownFinding("C03-S1-index-answer-unchecked", string(kind) != string(indexes.Kind_CidToOffsetAndSize))
+				verifKnownFinding("C03-S1-index-answer-unchecked", s1)
 			}
 		}
 		ix.memo[string(key)] = hit
 	}
+	return hit
+}
+
+// verifC03DepSetup (set by c03_e2edep.go) builds the epoch over the DEPRECATED index formats.
+var verifC03DepSetup func(f *verifC03Full, s2c, g2c, c2o *verifC03Index, car []byte, root cid.Cid) *Epoch
+
+// model of (*compactindexsized.DB).Lookup, installed through the VerifLookup hook.
+func verifC03Lookup(db *compactindexsized.DB, key []byte) ([]byte, error) {
+	kind, _ := db.GetKind()
+	ix := verifC03Indexes[string(kind)]
+	if ix == nil {
+		return nil, errors.New("verif model: unknown index kind")
+	}
+	hit := ix.find(string(kind), key, string(kind) != string(indexes.Kind_CidToOffsetAndSize))
 	if hit < 0 {
 		return nil, compactindexsized.ErrNotFound
 	}
@@ -118,11 +127,35 @@ func verifC03NewFull(nBlocks, nTxs int) *verifC03Full {
 	s2c := &verifC03Index{memo: map[string]int{}}
 	g2c := &verifC03Index{memo: map[string]int{}}
 	c2o := &verifC03Index{memo: map[string]int{}}
-	// CAR image: 11 header bytes, then one section per object
+	// CAR image: 11 header bytes, then one section per object. With param "chain" = 1 the layout is
+	// the one of a real CAR (tx_i, block_i in slot order; transactions beyond the blocks last) and
+	// block i > 0 names block i-1 as its parent, so the handlers' CAR prefetch has work to do.
+	order := make([]int, 0, len(f.st.objs))
+	if verifParam("chain", 0) == 1 {
+		for i := 0; i < nBlocks; i++ {
+			if i < nTxs {
+				order = append(order, nBlocks+i)
+			}
+			order = append(order, i)
+			if i > 0 {
+				f.st.objs[i].parent = f.st.objs[i-1].slot
+			}
+		}
+		for i := nBlocks; i < nTxs; i++ {
+			order = append(order, nBlocks+i)
+		}
+	} else {
+		for i := range f.st.objs {
+			order = append(order, i)
+		}
+	}
+	f.payload = make([][]byte, len(f.st.objs))
+	c2o.entries = make([]verifC03KV, len(f.st.objs))
 	car := make([]byte, 11)
-	for i, o := range f.st.objs {
+	for _, i := range order {
+		o := f.st.objs[i]
 		payload := []byte{byte(o.kind), byte(i), epoch, verifU8("payload")}
-		f.payload = append(f.payload, payload)
+		f.payload[i] = payload
 		cb := o.c.Bytes()
 		var lenBuf [binary.MaxVarintLen64]byte
 		n := binary.PutUvarint(lenBuf[:], uint64(len(cb)+len(payload)))
@@ -131,7 +164,7 @@ func verifC03NewFull(nBlocks, nTxs int) *verifC03Full {
 		car = append(car, cb...)
 		car = append(car, payload...)
 		size := uint64(len(car)) - off
-		c2o.entries = append(c2o.entries, verifC03KV{cb, indexes.OffsetAndSize{Offset: off, Size: size}.Bytes()})
+		c2o.entries[i] = verifC03KV{cb, indexes.OffsetAndSize{Offset: off, Size: size}.Bytes()}
 		if o.kind == verifC03KindBlock {
 			s2c.entries = append(s2c.entries, verifC03KV{indexes.Uint64tob(o.slot), cb})
 		} else {
@@ -144,6 +177,13 @@ func verifC03NewFull(nBlocks, nTxs int) *verifC03Full {
 	compactindexsized.VerifLookup = verifC03Lookup
 
 	root := verifC03Cid(0x01)
+	if verifC03DepSetup != nil && verifParam("deprecated", 0) == 1 {
+		f.e = verifC03DepSetup(f, s2c, g2c, c2o, car, root)
+		f.e.sigExists = &verifC03SigExists{st: f.st}
+		verifC03Stores[f.e] = f.st
+		verifC03Install(f.e)
+		return f
+	}
 	r1, err := indexes.OpenWithReader_CidToOffsetAndSize(verifC03IndexFile(indexes.Kind_CidToOffsetAndSize, indexes.IndexValueSize_CidToOffsetAndSize, root))
 	verifAssert(err == nil, "C03 setup: cid-to-offset-and-size index does not open")
 	r2, err := indexes.OpenWithReader_SlotToCid(verifC03IndexFile(indexes.Kind_SlotToCid, indexes.IndexValueSize_SlotToCid, root))
@@ -156,7 +196,8 @@ func verifC03NewFull(nBlocks, nTxs int) *verifC03Full {
 		epoch: epoch, config: &Config{}, carHeaderSize: 11, rootCid: root,
 		remoteCarReader:         verifC03ReaderAt{bytes.NewReader(car)},
 		cidToOffsetAndSizeIndex: r1, slotToCidIndex: r2, sigToCidIndex: r3,
-		allCache: cache,
+		allCache:  cache,
+		sigExists: &verifC03SigExists{st: f.st}, // an epoch normally has its sig-exists index loaded
 	}
 	verifC03Stores[f.e] = f.st
 	verifC03Install(f.e)
